@@ -1051,6 +1051,8 @@ def main(tier, replay=None):
     chk.cov["rule"] = ("every prime power q <= %d (thorough: all <= 4096, all proper powers <= 65536, 40 sampled primes above 4096; both storage types for small q) + the fields of test-ffarith + user-supplied moduli/generators; per field: constants, "
                        "defining polynomial irreducible (brute force), generator primitive (order via factorisation of q-1), three tables vs oracle and vs model, tables_ok (verified checker) on the model tables, "
                        "every scalar call form on all elements/pairs (q<=64) or boundary+random operands, every array form with sz in {0,1,2,n}, dotprod, init/convert; "
+                       "every field object obtained in one of 7 ways (rotated: constructed in place / copy / assigned over a default-constructed object, over a field of other characteristic-degree-bit length, to itself, twice / copy kept while the source is overwritten); "
+                       "Extension<GFqDom|Modular|GF2>, GFqExt, GFqExtFast (q-adic init/convert/maxdot incl. worst-case products) and GF2 (complete sweep) in the background part; degree-1 polynomial constructors in own processes; "
                        "non-trivial = first operand non-zero") % limit
     chk.cov["traces_validated_against_impl"] = ncorr
     chk.cov["fields"] = len(fields)
